@@ -50,7 +50,7 @@ static int iterConv(MPT_INTERFACE(convertable) *conv, MPT_TYPE(type) type, void 
 		struct iovec *vec;
 		if ((vec = dest)) {
 			vec->iov_base = (void *) it->val;
-			vec->iov_len = strlen(it->val);
+			vec->iov_len = it->val ? strlen(it->val) : 0;
 		}
 		return 's';
 	}
